@@ -284,6 +284,14 @@ impl DocumentBlock {
             DocumentBlock::Plain(plain) => plain.inlines.clone(),
             DocumentBlock::Para(para) => para.inlines.clone(),
             DocumentBlock::Header(header) => header.inlines.clone(),
+            // the cells of a table hold links like any other text
+            DocumentBlock::Table(table) => table
+                .header
+                .iter()
+                .chain(table.rows.iter().flatten())
+                .flatten()
+                .cloned()
+                .collect(),
             _ => vec![],
         }
     }
